@@ -7,7 +7,7 @@
   hierarchy (the children graph may even be cyclic — results are conditional on the model call
   returning `.ok`, i.e. on the Python call returning normally), every fuel value.
 -/
-import NemoVerif.Lemmas.Lifetime
+import NemoVerif.Lemmas.LifetimeT2
 namespace NemoVerif.C06
 open NemoVerif.Lifetime
 
@@ -125,7 +125,7 @@ example : (match abortFlow 3 (generateUmim exState (.start 7) (AEv.startOf 7)) 0
 theorem abort_post (n : Nat) (s : State) (u : Nat) (s' : State) (f : Flow) (hf : s.flows u = some f)
     (hl : f.status.listening = true ∨ f.status = .stopping) (h : abortFlow (n + 1) s u false = .ok s') :
     ∃ f' s1 f1, s'.flows u = some f' ∧ f'.status = .stopped ∧ f'.heads = 0 ∧
-      childLoop (fun s c => abortFlow n s c true) s f.children = .ok s1 ∧ s1.flows u = some f1 ∧
+      childLoop (fun s c => abortFlow n s c true) (markNoRestart s u) f.children = .ok s1 ∧ s1.flows u = some f1 ∧
       (∀ a, a ∉ f1.actionUids → s'.actions a = s1.actions a ∧ stops a s'.out = stops a s1.out) ∧
       (f1.actionUids.Nodup → ∀ a ∈ f1.actionUids, ∃ x, s1.actions a = some x ∧ StopEffect a x s1 s') := by
   simp only [abortFlow, deactivatePhase, hf] at h
@@ -191,23 +191,30 @@ theorem finish_post (n : Nat) (s : State) (u : Nat) (s' : State) (f : Flow) (hf 
 
 /-! ## T1 `activated_restart` / `immediate_finish_guard` -/
 
-/-- Failing an instance with `activated > 0` whose restart has not been issued yet pushes ONE `StartFlow` for
-    the same flow (arguments = those of the instance, carried by `inst := u`) at the FRONT of the internal queue
-    — ahead of everything that was queued and of the `FlowFailed` events appended by the call — and sets
-    `new_instance_started`; otherwise the queue only grows at the back by `FlowFailed`/`FlowFinished` events. -/
+/-- Failing an instance: let `f1` be its record after its children have been stopped (`new_instance_started` is
+    only ever set: it is set already when the restart was issued before, and — since /repo a75cc62 — when the instance
+    fails while still STARTING, i.e. before it was started).  If `activated > 0` and `f1.nis` is not set, ONE `StartFlow`
+    for the same flow (arguments = those of the instance, carried by `inst := u`) is pushed at the FRONT of the internal
+    queue — ahead of everything that was queued and of the `FlowFailed` events appended by the call — and the flag is
+    set; otherwise the queue only grows at the back by `FlowFailed`/`FlowFinished` events. -/
 theorem activated_restart (n : Nat) (s : State) (u : Nat) (s' : State) (f : Flow) (hf : s.flows u = some f)
     (hl : f.status.listening = true ∨ f.status = .stopping) (h : abortFlow (n + 1) s u false = .ok s') :
-    ∃ f' l, s'.flows u = some f' ∧ (∀ e ∈ l, e.isEnd = true) ∧
-      ((0 < f'.activated ∧ f.nis = false) →
+    ∃ f' f1 s1 l, s'.flows u = some f' ∧
+      childLoop (fun s c => abortFlow n s c true) (markNoRestart s u) f.children = .ok s1 ∧ s1.flows u = some f1 ∧
+      (∀ e ∈ l, e.isEnd = true) ∧
+      (f.nis = true → f1.nis = true) ∧ (f.status = .starting → 0 < f.activated → f1.nis = true) ∧
+      ((0 < f'.activated ∧ f1.nis = false) →
         f'.nis = true ∧ ∃ src, s'.queue = .startFlow f.flowId src f'.activated u :: (s.queue ++ l)) ∧
-      (¬(0 < f'.activated ∧ f.nis = false) → f'.nis = f.nis ∧ s'.queue = s.queue ++ l) := by
+      (¬(0 < f'.activated ∧ f1.nis = false) → f'.nis = f1.nis ∧ s'.queue = s.queue ++ l) := by
   simp only [abortFlow, deactivatePhase, hf] at h
   obtain ⟨s1, f1, s2, s6, f6, h1, hf1, h2, _, _, q6, hf6, _, _, ac6, n6, i6, _, hr⟩ :=
     abortBody_post _ s u false s' f hf hl h
   have hst := childLoop_steps _ (abortFlow_rec_steps n) _ _ _ h1
   obtain ⟨l, hq, hle⟩ := hst.queue_append
   obtain ⟨_, _, hfr⟩ := hst.flows_rel
-  obtain ⟨f1', hf1', hu⟩ := hfr u f hf
+  obtain ⟨f0, hf0, _, _, _, _, id0, _, _, nis0, nst0, _⟩ := markNoRestart_self s u f hf
+  obtain ⟨_, _, qm, _, _⟩ := markNoRestart_frame s u
+  obtain ⟨f1', hf1', hu⟩ := hfr u f0 hf0
   rw [hf1] at hf1'; cases hf1'
   obtain ⟨g, hg, hcase⟩ := restart_spec _ _ _ _ hr
   rw [hf6] at hg; cases hg
@@ -217,27 +224,33 @@ theorem activated_restart (n : Nat) (s : State) (u : Nat) (s' : State) (f : Flow
     · exact hle e h
     · simp at h; subst h; rfl
   rcases hcase with ⟨_, ha, hn, hq', hu', _⟩ | ⟨hn, e⟩
-  · refine ⟨_, l ++ [.flowFailed u], hu', hl', ?_, ?_⟩
+  · refine ⟨_, f1, s1, l ++ [.flowFailed u], hu', h1, hf1, hl', fun h => hu.nis (nis0 h), fun a b => hu.nis (nst0 a b), ?_, ?_⟩
     · intro _
       refine ⟨rfl, restartSource s6 u f6, ?_⟩
-      rw [hq', q6, hq, i6, hu.flowId]; simp
+      rw [hq', q6, hq, qm, i6, hu.flowId, id0]; simp
     · intro hc
-      exact absurd ⟨ha, by rw [← hu.nis, ← n6]; exact hn⟩ hc
+      exact absurd ⟨ha, by rw [← n6]; exact hn⟩ hc
   · subst e
-    refine ⟨_, l ++ [.flowFailed u], hf6, hl', ?_, ?_⟩
+    refine ⟨_, f1, s1, l ++ [.flowFailed u], hf6, h1, hf1, hl', fun h => hu.nis (nis0 h), fun a b => hu.nis (nst0 a b), ?_, ?_⟩
     · intro hc
-      exact absurd ⟨rfl, hc.1, by rw [n6, hu.nis]; exact hc.2⟩ hn
+      exact absurd ⟨rfl, hc.1, by rw [n6]; exact hc.2⟩ hn
     · intro _
-      exact ⟨by rw [n6, hu.nis], by rw [q6, hq]; simp⟩
+      exact ⟨n6, by rw [q6, hq, qm]; simp⟩
 
 /-- at most once per instance: an instance whose `new_instance_started` is set is never restarted again
-    (no `StartFlow` is pushed; the flag is only ever set, see `FlowUpd.nis`) -/
+    (no `StartFlow` is pushed; the flag is only ever set, see `FlowUpd.nis`); likewise an activated instance that
+    fails while still STARTING (before it was started) is not restarted -/
 theorem restart_at_most_once (n : Nat) (s : State) (u : Nat) (s' : State) (f : Flow) (hf : s.flows u = some f)
-    (hl : f.status.listening = true ∨ f.status = .stopping) (hn : f.nis = true)
+    (hl : f.status.listening = true ∨ f.status = .stopping)
+    (hn : f.nis = true ∨ (f.status = .starting ∧ 0 < f.activated))
     (h : abortFlow (n + 1) s u false = .ok s') :
     ∃ l, s'.queue = s.queue ++ l ∧ ∀ e ∈ l, e.isEnd = true := by
-  obtain ⟨f', l, _, hl', _, h2⟩ := activated_restart n s u s' f hf hl h
-  exact ⟨l, (h2 (by simp [hn])).2, hl'⟩
+  obtain ⟨f', f1, s1, l, _, _, _, hl', m1, m2, _, h2⟩ := activated_restart n s u s' f hf hl h
+  have : f1.nis = true := by
+    rcases hn with h | ⟨a, b⟩
+    · exact m1 h
+    · exact m2 a b
+  exact ⟨l, (h2 (by simp [this])).2, hl'⟩
 
 /-- `start_new_flow_instance` label: restarts only a STARTED instance, from itself, at the front of the queue -/
 theorem label_restart_spec (s : State) (u : Nat) (f : Flow) (hf : s.flows u = some f) :
@@ -360,17 +373,7 @@ theorem activate_existing (s : State) (fid : Nat) (known act hasInst : Bool) (so
           · cases h
         · cases h
 
-/-! ## T2 `lifetime_invariant` (statement; proved here only at the level of single operations) -/
-
-/-- No listening non-activated instance has a parent that is neither listening nor just being stopped. -/
-def LifetimeInv (s : State) : Prop :=
-  ∀ c cf p pf, s.flows c = some cf → cf.status.listening = true → cf.activated = 0 → cf.parent = some p →
-    s.flows p = some pf → pf.status.listening = true ∨ pf.status = .stopping
-
-/- Full statement (NOT proved; carried by the whole-history oracle on the real interpreter):
-     `LifetimeInv (initializeState cfg)` and `LifetimeInv s → LifetimeInv (runToCompletion s e)`.
-   Needs the whole-interpreter model (CoreVM, built for C09) for `runToCompletion`; on the unpatched tree it is
-   false (finding `start-after-parent-ended`).  Proved below: the operation-level facts the inductive step needs. -/
+/-! ## monotonicity facts used by T2 -/
 
 /-- an ended (or never-listening) instance is never brought back by abort/deactivation steps, and its identity
     (flow id, parent, `new_instance_started`, action list) is kept; children are only removed -/
@@ -389,93 +392,337 @@ theorem abort_ends_instance (n : Nat) (s : State) (u : Nat) (d : Bool) (s' : Sta
     (h : abortFlow n s u d = .ok s') :
     (d = true ∧ s' = setFlow s u { f with activated := f.activated - 1 } ∧ f.activated - 1 ≠ 0) ∨
     ∃ f', s'.flows u = some f' ∧ f'.status.listening = false := by
-  cases n with
-  | zero => simp [abortFlow] at h
-  | succ n =>
-    simp only [abortFlow] at h
+  rcases Lifetime.abort_ends_instance n s u d s' f hf h with ⟨a, _, b, c⟩ | ⟨g, h1, h2, _⟩
+  · exact Or.inl ⟨a, b, c⟩
+  · exact Or.inr ⟨g, h1, h2⟩
+
+/-- the child loop of `_abort_flow` / `_finish_flow` stops every non-activated child that is listed -/
+theorem children_stopped (n : Nat) (l : List Nat) (s s1 : State)
+    (h : childLoop (fun s c => abortFlow n s c true) s l = .ok s1) (c : Nat) (hc : c ∈ l) (cf : Flow)
+    (hcf : s.flows c = some cf) (ha : cf.activated = 0) :
+    ∃ cf', s1.flows c = some cf' ∧ cf'.status.listening = false ∧ cf'.activated = 0 :=
+  Lifetime.children_stopped n l s s1 h c hc cf hcf ha
+
+
+/-! ## T2 `lifetime_invariant` over the operation-sequence semantics (`Models/LifetimeOps.lean`) -/
+
+/-- The invariant.  `flow.dc`: every listening non-activated instance that a parent lists as its child has a
+    parent that is listening (or is just executing `abort`: STOPPING);  `flow.sfc`: a child of the same flow as its
+    parent is a restarted instance of that parent;  nobody lists the main flow, which has no parent; every live
+    instance is in the iteration order.  `act.act1`: a STARTING/STARTED action that has not been sent a `Stop` has
+    scope count ≥ 1;  `act.act0`: a STOPPING action has been sent its `Stop`. -/
+structure LifetimeInv (s : State) : Prop where
+  flow : FlowInv s
+  act : ActInv s
+
+theorem lifetime_inv_init : LifetimeInv initState := by
+  refine ⟨⟨?_, ?_, ?_, ?_, ?_⟩, ⟨?_, ?_⟩⟩
+  · intro p pf c cf hp hc
+    simp only [initState] at hp
+    split at hp
+    · cases hp; simp [freshFlow] at hc
+    · cases hp
+  · intro p pf c cf hp hc
+    simp only [initState] at hp
+    split at hp
+    · cases hp; simp [freshFlow] at hc
+    · cases hp
+  · intro p pf c cf hp hc
+    simp only [initState] at hp
+    split at hp
+    · cases hp; simp [freshFlow] at hc
+    · cases hp
+  · intro v f hv _
+    simp only [initState] at hv
+    split at hv
+    · cases hv; rfl
+    · cases hv
+  · intro v f hv
+    simp only [initState] at hv
+    split at hv
+    · next e => subst e; simp [initState]
+    · cases hv
+  · intro a x hx; simp [initState] at hx
+  · intro a x hx; simp [initState] at hx
+
+theorem labelRestart_core (s : State) (u : Nat) (s' : State) (h : labelRestart s u = .ok s') :
+    s'.order = s.order ∧ s'.actions = s.actions ∧ s'.out = s.out ∧ ∀ v, (s'.flows v).map core = (s.flows v).map core := by
+  unfold labelRestart at h
+  split at h
+  · cases h
+  · next f hf =>
     split at h
+    · cases h; exact ⟨rfl, rfl, rfl, fun _ => rfl⟩
     · cases h
-    · next s1 h1 =>
-      cases h
-      left
-      unfold deactivatePhase at h1
-      simp only [hf] at h1
-      split at h1
-      · cases h1
-      · cases h1
-      · next hr =>
-        split at h1
-        · split at h1 <;> cases h1
-        · next hne =>
-          cases h1
-          refine ⟨?_, rfl, by simpa using hne⟩
-          cases d
-          · simp at hr
-          · rfl
-    · next s1 h1 =>
-      right
-      obtain ⟨_, _, hrel⟩ := (deactivatePhase_steps _ (abortFlow_rec_steps n) _ _ _ _ _ h1).flows_rel
-      obtain ⟨f1, hf1, hu⟩ := hrel u f hf
-      by_cases hg : f1.status.listening = true ∨ f1.status = .stopping
-      · obtain ⟨_, _, _, s6, f6, _, _, _, _, _, _, hf6, st6, _, _, _, _, _, hr⟩ := abortBody_post _ s1 u d s' f1 hf1 hg h
-        obtain ⟨g, hg', hcase⟩ := restart_spec _ _ _ _ hr
-        rw [hf6] at hg'; cases hg'
-        rcases hcase with ⟨_, _, _, _, hu', _⟩ | ⟨_, e⟩
-        · exact ⟨_, hu', by simp [st6, FStatus.listening]⟩
-        · rw [e]; exact ⟨_, hf6, by simp [st6, FStatus.listening]⟩
-      · unfold abortBody at h
-        simp only [hf1] at h
-        have hg1 : ¬ f1.status.listening = true := fun e => hg (Or.inl e)
-        have hg2 : ¬ f1.status = .stopping := fun e => hg (Or.inr e)
-        have hc : (!f1.status.listening && f1.status != .stopping) = true := by
-          simp [hg1, hg2]
-        rw [if_pos hc] at h
-        cases h
-        exact ⟨f1, hf1, by simpa using hg1⟩
+      have hf' : (pushLeft s (.startFlow f.flowId u f.activated u)).flows u = some f := hf
+      rw [modFlow_some _ _ _ _ hf']
+      refine ⟨rfl, rfl, rfl, ?_⟩
+      intro v
+      have := core_setFlow (pushLeft s (.startFlow f.flowId u f.activated u)) u f { f with nis := true } hf' rfl v
+      simpa using this
+
+/-- every operation preserves the invariant -/
+theorem lifetime_inv_step (s : State) (op : IOp) (hi : LifetimeInv s) : LifetimeInv (applyOp s op) := by
+  cases op with
+  | abort n u d =>
+    simp only [applyOp]
+    cases h : abortFlow n s u d with
+    | error e => exact hi
+    | ok s' => exact ⟨abort_flowInv hi.flow n u d s' h, (abortFlow_steps n s u d s' h).actInv hi.act⟩
+  | finish n u d =>
+    simp only [applyOp]
+    cases h : finishFlow n s u d with
+    | error e => exact hi
+    | ok s' => exact ⟨finish_flowInv hi.flow n u d s' h, (finishFlow_steps n s u d s' h).actInv hi.act⟩
+  | endScope n u nm =>
+    simp only [applyOp]
+    cases h : endScope n s u nm with
+    | error e => exact hi
+    | ok s' => exact ⟨endScope_flowInv hi.flow n u nm s' h, (endScope_steps n s u nm s' h).actInv hi.act⟩
+  | startChild c fid p k =>
+    simp only [applyOp]
+    split
+    · next hc hp =>
+      split
+      · next hg =>
+        simp only [Bool.and_eq_true, Bool.or_eq_true, bne_iff_ne, ne_eq, decide_eq_true_eq, beq_iff_eq] at hg
+        refine ⟨startChild_flowInv hi.flow c fid p k _ hc hp hg.1.1 hg.1.2 ?_, hi.act.congr rfl (fun _ => rfl)⟩
+        rcases hg.2 with h | h
+        · exact Or.inl h
+        · exact Or.inr h.1.1
+      · exact hi
+    · exact hi
+  | reactivate fid known act hasInst source pm =>
+    simp only [applyOp]
+    split
+    · next s' r h =>
+      refine ⟨reactivate_flowInv hi.flow fid known act hasInst source _ s' r h, ?_⟩
+      rcases processStartFlow_effect s fid known act hasInst source _ s' r h with e | ⟨_, _, _, _, _, _, _, _, e⟩
+      · rw [e]; exact hi.act
+      · rw [e]; exact hi.act.congr (by simp) (fun _ => by simp)
+    · exact hi
+  | status u st =>
+    simp only [applyOp]
+    split
+    · next f hf =>
+      split
+      · next hok => exact ⟨status_flowInv hi.flow u f st hf hok, hi.act.congr rfl (fun _ => rfl)⟩
+      · exact hi
+    · exact hi
+  | newAction u a =>
+    simp only [applyOp]
+    split
+    · next f hf ha =>
+      split
+      · next h0 =>
+        refine ⟨hi.flow.of_core rfl (core_setFlow s u f _ hf rfl), ?_, ?_⟩
+        · intro b y hy hr hs
+          by_cases hb : b = a
+          · subst hb; rw [setAction_actions_same] at hy; cases hy; simp [AStatus.running] at hr
+          · rw [setAction_actions_ne _ _ _ _ hb] at hy; exact hi.act.act1 b y hy hr hs
+        · intro b y hy hs
+          by_cases hb : b = a
+          · subst hb; rw [setAction_actions_same] at hy; cases hy; cases hs
+          · rw [setAction_actions_ne _ _ _ _ hb] at hy; exact hi.act.act0 b y hy hs
+      · exact hi
+    · exact hi
+  | startAction a =>
+    simp only [applyOp]
+    split
+    · split
+      · obtain ⟨hf, _, _, ho, _⟩ := update_rel (AEv.startOf a) (emit s (.start a))
+        exact ⟨hi.flow.of_flows_eq ho hf, startAction_actInv hi.act a⟩
+      · exact hi
+    · exact hi
+  | coWin loser a b =>
+    simp only [applyOp]
+    split
+    · next f x hf hx =>
+      split
+      · next hg =>
+        refine ⟨hi.flow.of_core rfl (core_setFlow s loser f _ hf rfl), ?_, ?_⟩
+        · intro v y hy hr hs
+          simp only at hy
+          split at hy
+          · cases hy
+          · next hvb =>
+            by_cases hva : v = a
+            · subst hva
+              rw [setAction_actions_same] at hy; cases hy
+              have := hi.act.act1 v x hx hr hs
+              simp; omega
+            · rw [setAction_actions_ne _ _ _ _ hva] at hy; exact hi.act.act1 v y hy hr hs
+        · intro v y hy hs
+          simp only at hy
+          split at hy
+          · cases hy
+          · by_cases hva : v = a
+            · subst hva
+              rw [setAction_actions_same] at hy; cases hy
+              exact hi.act.act0 v x hx hs
+            · rw [setAction_actions_ne _ _ _ _ hva] at hy; exact hi.act.act0 v y hy hs
+      · exact hi
+    · exact hi
+  | event e =>
+    by_cases hg : eventOk s e = true
+    · have happ : applyOp s (.event e) = updateActionStatusByEvent s e := by simp only [applyOp, hg, if_true]
+      rw [happ]
+      simp only [eventOk, Bool.and_eq_true] at hg
+      obtain ⟨hf, _, _, ho, _⟩ := update_rel e s
+      refine ⟨hi.flow.of_flows_eq ho hf, update_actInv hi.act e hg.1 ?_⟩
+      intro x hx
+      have := hg.2
+      rw [hx] at this
+      simpa using this
+    · have happ : applyOp s (.event e) = s := by simp only [applyOp, hg]; rfl
+      rw [happ]; exact hi
+  | label u =>
+    simp only [applyOp]
+    cases h : labelRestart s u with
+    | error e => exact hi
+    | ok s' =>
+      obtain ⟨ho, ha, hout, hc⟩ := labelRestart_core s u s' h
+      show LifetimeInv s'
+      exact ⟨hi.flow.of_core ho hc, hi.act.congr ha (fun _ => by rw [hout])⟩
+  | frame u heads scopes =>
+    simp only [applyOp]
+    split
+    · next f hf => exact ⟨hi.flow.of_core rfl (core_setFlow s u f _ hf rfl), hi.act.congr rfl (fun _ => rfl)⟩
+    · exact hi
+  | noRestart u =>
+    simp only [applyOp]
+    cases hf : s.flows u with
+    | none => rw [modFlow_none _ _ _ hf]; exact hi
+    | some f =>
+      rw [modFlow_some _ _ _ _ hf]
+      exact ⟨hi.flow.of_core rfl (core_setFlow s u f _ hf rfl), hi.act.congr rfl (fun _ => rfl)⟩
+
+/-- **T2**: the invariant holds in every state the operation-sequence semantics can reach. -/
+theorem lifetime_invariant (ops : List IOp) : LifetimeInv (run ops) := by
+  unfold run
+  suffices h : ∀ (l : List IOp) (s : State), LifetimeInv s → LifetimeInv (l.foldl applyOp s) from h ops _ lifetime_inv_init
+  intro l
+  induction l with
+  | nil => intro s hs; exact hs
+  | cons op l ih => intro s hs; exact ih _ (lifetime_inv_step s op hs)
+
+/-- parent-form reading: wherever the parent still lists the child (`child_flow_uids`), a listening
+    non-activated instance has a listening (or STOPPING) parent -/
+theorem lifetime_parent_form (ops : List IOp) (c p : Nat) (cf pf : Flow) (hc : (run ops).flows c = some cf)
+    (hp : (run ops).flows p = some pf) (hlisted : c ∈ pf.children) (hl : cf.status.listening = true) (ha : cf.activated = 0) :
+    pf.status.listening = true ∨ pf.status = .stopping :=
+  (lifetime_invariant ops).flow.dc p pf c cf hp hlisted hc (fun h => h) ha hl
 
 
-/-- the child loop of `_abort_flow` / `_finish_flow` stops every non-activated child that is listed:
-    "every still-running flow it started has stopped" (one level; nested levels by the same theorem applied to the
-    nested calls, `ended_stays_ended` keeps them stopped) -/
-theorem children_stopped (n : Nat) : ∀ (l : List Nat) (s s1 : State),
-    childLoop (fun s c => abortFlow n s c true) s l = .ok s1 →
-    ∀ c ∈ l, ∀ cf, s.flows c = some cf → cf.activated = 0 →
-      ∃ cf', s1.flows c = some cf' ∧ cf'.status.listening = false ∧ cf'.activated = 0
-  | [], _, _, _, c, hc, _, _, _ => by simp at hc
-  | c0 :: cs, s, s1, h, c, hc, cf, hcf, hact => by
-    simp only [childLoop] at h
-    split at h
-    · next hnone =>
-      rcases List.mem_cons.1 hc with e | e
-      · subst e; rw [hcf] at hnone; cases hnone
-      · exact children_stopped n cs s s1 h c e cf hcf hact
-    · next cf0 hcf0 =>
-      split at h
-      · split at h
-        · next s2 h2 =>
-          have hst := abortFlow_true_steps n s c0 s2 h2
-          obtain ⟨_, _, hrel⟩ := hst.flows_rel
-          obtain ⟨cf2, hcf2, hu2⟩ := hrel c cf hcf
-          have hact2 : cf2.activated = 0 := by have := hu2.activated; omega
-          by_cases e : c = c0
-          · subst e
-            rcases abort_ends_instance n s c true s2 cf hcf h2 with ⟨_, _, hne⟩ | ⟨f', hf', hl'⟩
-            · rw [hact] at hne; simp at hne
-            · obtain ⟨_, _, hrel'⟩ := (childLoop_steps _ (abortFlow_rec_steps n) _ _ _ h).flows_rel
-              obtain ⟨f'', hf'', hu''⟩ := hrel' c f' hf'
-              rw [hcf2] at hf'; cases hf'
-              exact ⟨f'', hf'', hu''.not_listening hl', by have := hu''.activated; omega⟩
-          · have hc' : c ∈ cs := by
-              rcases List.mem_cons.1 hc with e' | e'
-              · exact absurd e' e
-              · exact e'
-            exact children_stopped n cs s2 s1 h c hc' cf2 hcf2 hact2
-        · cases h
-      · next hca =>
-        rcases List.mem_cons.1 hc with e | e
-        · subst e
-          rw [hcf] at hcf0; cases hcf0
-          simp [isChildActivated, hact] at hca
-        · exact children_stopped n cs s s1 h c e cf hcf hact
+/-! ## fuel: `abort_fuel_sufficient`, and what happens on a cyclic child graph -/
+
+/-- On an acyclic child graph (a rank `r` decreases along `child_flow_uids`) any fuel above the rank of the instance
+    suffices — in particular the number of instances —: the model never answers `Err.fuel`, i.e. the Python
+    recursion is bounded by the depth of the hierarchy. -/
+theorem abort_fuel_sufficient (r : Nat → Nat) (n : Nat) (s : State) (u : Nat) (d : Bool) (hr : Ranked r s) (hu : r u < n) :
+    abortFlow n s u d ≠ .error .fuel :=
+  abortFlow_no_fuel r n s u d hr hu
+
+theorem finish_fuel_sufficient (r : Nat → Nat) (n : Nat) (s : State) (u : Nat) (d : Bool) (hr : Ranked r s) (hu : r u ≤ n) :
+    finishFlow n s u d ≠ .error .fuel :=
+  finishFlow_no_fuel r n s u d hr hu
+
+/-- two listening instances that list each other as children (what two mutually activating flows look like once
+    both reference counts have reached 0) -/
+def cyc : State :=
+  { flows := fun u => if u = 0 then some ⟨0, none, [1], .started, 0, false, [], [], 1, false⟩
+                      else if u = 1 then some ⟨1, some 0, [0], .started, 0, false, [], [], 1, false⟩ else none,
+    actions := fun _ => none, order := [0, 1], queue := [], out := [] }
+
+/-- **as-is counterexample (open finding `activation-cycle-recursion`)**: on a cyclic child graph NO fuel suffices —
+    the Python recursion of `_abort_flow` does not terminate (RecursionError escapes `run_to_completion`). -/
+theorem abort_cyclic_as_is_counterexample : ∀ n : Nat,
+    abortFlow n cyc 0 true = .error .fuel ∧ abortFlow n cyc 1 true = .error .fuel
+  | 0 => ⟨rfl, rfl⟩
+  | n + 1 => by
+    obtain ⟨h0, h1⟩ := abort_cyclic_as_is_counterexample n
+    constructor
+    · simp [abortFlow, deactivatePhase, abortBody, markNoRestart, childLoop, isRefActivated, isChildActivated, cyc, FStatus.listening]
+      have : abortFlow n cyc 1 true = .error .fuel := h1
+      simp [cyc] at this
+      simp [this]
+    · simp [abortFlow, deactivatePhase, abortBody, markNoRestart, childLoop, isRefActivated, isChildActivated, cyc, FStatus.listening]
+      have : abortFlow n cyc 0 true = .error .fuel := h0
+      simp [cyc] at this
+      simp [this]
+
+/-! ## the transitive statement -/
+
+/-- `c` is reachable from `u` through `child_flow_uids` (any depth) along non-activated instances -/
+inductive Desc (s : State) (u : Nat) : Nat → Prop
+  | child {c : Nat} {pf cf : Flow} : s.flows u = some pf → c ∈ pf.children → s.flows c = some cf → cf.activated = 0 → Desc s u c
+  | step {m c : Nat} {mf cf : Flow} : Desc s u m → s.flows m = some mf → c ∈ mf.children → s.flows c = some cf →
+      cf.activated = 0 → Desc s u c
+
+/-- in a state satisfying the lifetime clause, below an ended instance nothing non-activated is listening -/
+theorem descendants_of_ended (s : State) (hd : DC NoEx s) (hns : ∀ v g, s.flows v = some g → g.status ≠ .stopping)
+    (u : Nat) (f : Flow) (hf : s.flows u = some f) (hu : f.status.listening = false) (c : Nat) (h : Desc s u c) :
+    ∃ cf, s.flows c = some cf ∧ cf.status.listening = false := by
+  induction h with
+  | @child c pf cf hp hc hcf ha =>
+    rw [hf] at hp; cases hp
+    refine ⟨cf, hcf, ?_⟩
+    cases hl : cf.status.listening with
+    | false => rfl
+    | true =>
+      rcases hd u f c cf hf hc hcf (fun h => h) ha hl with h | h
+      · rw [hu] at h; cases h
+      · exact absurd h (hns u f hf)
+  | @step m c mf cf _ hm hc hcf ha ih =>
+    obtain ⟨mf', hm', hml⟩ := ih
+    rw [hm] at hm'; cases hm'
+    refine ⟨cf, hcf, ?_⟩
+    cases hl : cf.status.listening with
+    | false => rfl
+    | true =>
+      rcases hd m mf c cf hm hc hcf (fun h => h) ha hl with h | h
+      · rw [hml] at h; cases h
+      · exact absurd h (hns m mf hm)
+
+/-- **the transitive statement as ONE theorem.**  In a state satisfying the hierarchy invariant (every reachable
+    state does: `lifetime_invariant`) in which no instance other than `u` is STOPPING: after `_abort_flow(u)` returns —
+    unless it was the deactivation of a reference instance that other activators still hold — EVERY instance reachable
+    from `u` through child uids, at any depth, along non-activated instances is not listening; the invariant holds again. -/
+theorem abort_descendants_stopped (n : Nat) (s : State) (u : Nat) (d : Bool) (s' : State) (f : Flow)
+    (hi : FlowInv s) (hf : s.flows u = some f)
+    (hns : ∀ v g, s.flows v = some g → g.status = .stopping → v = u)
+    (h : abortFlow n s u d = .ok s') :
+    FlowInv s' ∧
+    ((d = true ∧ s' = setFlow s u { f with activated := f.activated - 1 } ∧ f.activated - 1 ≠ 0) ∨
+     ∀ c, Desc s' u c → ∃ cf, s'.flows c = some cf ∧ cf.status.listening = false) := by
+  have hi' := abort_flowInv hi n u d s' h
+  refine ⟨hi', ?_⟩
+  rcases Lifetime.abort_ends_instance n s u d s' f hf h with ⟨a, _, b, c⟩ | ⟨f', hf', hl', hns0⟩
+  · exact Or.inl ⟨a, b, c⟩
+  · right
+    -- no instance is STOPPING afterwards
+    have hns' : ∀ v g, s'.flows v = some g → g.status ≠ .stopping := by
+      intro v g hv hst
+      obtain ⟨s6, gd, tail⟩ := abortFlow_good_any n NoEx s u d s' hi.sfc h
+      have hv6 : ∃ g6, s6.flows v = some g6 ∧ g6.status = .stopping := by
+        rcases tail with e | hr
+        · subst e; exact ⟨g, hv, hst⟩
+        · obtain ⟨_, hc⟩ := restart_core _ _ _ _ hr
+          obtain ⟨g6, h6, e6⟩ := core_back hc v g hv
+          simp only [core, Prod.mk.injEq] at e6
+          exact ⟨g6, h6, by rw [e6.2.2.2.1]; exact hst⟩
+      obtain ⟨g6, h6, hst6⟩ := hv6
+      obtain ⟨g0, h0, hu0⟩ := gd.steps.flows_back v g6 h6
+      have hs0 : g0.status = .stopping := by
+        rcases hu0.status with e | e | e
+        · rw [← e]; exact hst6
+        · rw [e] at hst6; cases hst6
+        · rw [e] at hst6; cases hst6
+      have hvu := hns v g0 h0 hs0
+      subst hvu
+      rw [hf'] at hv; cases hv
+      exact hns0 hst
+    intro c hc
+    exact descendants_of_ended s' hi'.dc hns' u f' hf' hl' c hc
 
 end NemoVerif.C06
